@@ -602,7 +602,9 @@ pub fn run_lets(args: &[String]) {
 }
 
 fn lets_worker(cfgs: Vec<usize>) -> (u64, u64, Vec<String>, Vec<String>) {
-    let forms = ["", "let n{} = ", "let mut n{} = ", "let ref n{} = "];
+    // raw identifiers (`r#type`) are identifiers: the branch name of a `let` may be one
+    let forms = ["", "let n{} = ", "let mut n{} = ", "let ref n{} = ", "let r#RAW{} = ", "let mut r#RAW{} = "];
+    let raws = ["type", "match", "loop"];
     let mut n = 0u64;
     let mut nviol = 0u64;
     let mut viols: Vec<String> = vec![];
@@ -610,11 +612,11 @@ fn lets_worker(cfgs: Vec<usize>) -> (u64, u64, Vec<String>, Vec<String>) {
     for nb in 1..=3usize {
         let mut depths = vec![1usize; nb];
         loop {
-            for assign in 0..(4usize.pow(nb as u32)) {
+            for assign in 0..(6usize.pow(nb as u32)) {
                 for handler in [false, true] {
                     let mut parts = vec![];
                     for b in 0..nb {
-                        let f = forms[(assign / 4usize.pow(b as u32)) % 4].replace("{}", &b.to_string());
+                        let f = forms[(assign / 6usize.pow(b as u32)) % 6].replace("RAW{}", raws[b % 3]).replace("{}", &b.to_string());
                         let mut s = format!("{}x{}", f, b);
                         for k in 1..depths[b] {
                             s.push_str(&format!(" ~|> f{}_{} ~=> {{ g{}_{} }}", b, k, b, k));
